@@ -5,9 +5,7 @@ import "sort"
 func sortStrings(s []string) { sort.Strings(s) }
 
 func init() {
-	Props["C09"] = &PropSpec{
-		Level: "other",
-		Rules: []string{"R21", "R22"},
-		Explanation: "tbd",
-	}
+	Props["C09"] = &PropSpec{Level: "other", Rules: []string{"R21", "R22"}, Explanation: "tbd"}
+	Props["C02"] = &PropSpec{Level: "other", Rules: []string{"R01"}, Explanation: "tbd"}
+	Props["C05"] = &PropSpec{Level: "other", Rules: []string{"R10"}, Explanation: "tbd"}
 }
